@@ -221,6 +221,13 @@ class ContractUse:
             cp = Builder(interp, 'prove')
             for k, g in enumerate(_list(case, 'requires', cp, **loc)):
                 ctx.oblige('call:%s.requires[%d]' % (self.qualname, k), g, kind='callpre')
+            if interp.opts.get('recursive_contract') and self.qualname == interp.opts.get('verifying'):
+                meas = getattr(case, 'measure', None)
+                outer = ctx.ghost.get('outer_measure')
+                if meas is None or outer is None:
+                    raise Unsupported('recursive call without a measure')
+                m_in = meas(cp, **loc)
+                ctx.oblige('call:%s.measure decreases' % self.qualname, z3.And(to_z3(m_in) >= 0, to_z3(m_in) < to_z3(outer)), kind='callpre')
             # exceptional exit of the callee (its contract says when): fork
             mr = getattr(case, 'may_raise', None)
             if mr is not None:
@@ -327,6 +334,9 @@ def run_case(case, repo=None, registry=None, opts=None):
     opts['verifying'] = case.qualname
     if getattr(case, 'float_model', None):
         opts['float_model'] = case.float_model
+    if getattr(case, 'recursive', False):
+        # recursive calls go through this function's own contract at a smaller measure (obligation)
+        opts['recursive_contract'] = True
     worklist = [[]]
     maxpaths = opts.get('max_paths', 400)
     interp = Interp(repo, registry, opts)
@@ -362,6 +372,8 @@ def run_case(case, repo=None, registry=None, opts=None):
                 res.witness_terms = params
             for g in _list(case, 'requires', ca, **params):
                 ctx.assume(g)
+            if getattr(case, 'measure', None) is not None:
+                ctx.ghost['outer_measure'] = case.measure(ca, **{k: v for k, v in params.items() if not k.startswith('_')})
             pre = getattr(case, 'pre_state', None)
             old = pre(ca, **params) if pre else None
             outcome = None
